@@ -468,9 +468,9 @@ svalue_t *safe_apply (const char *fun, object_t * ob, int num_arg, int where)
     }
   else
     {
-      restore_context (&econ);
-      /* the saved stack pointer includes the arguments: drop them like apply() does */
-      pop_n_elems (num_arg);
+      /* the saved stack pointer includes the arguments: drop them like apply() does,
+       * as far as the callee has not dropped them already */
+      restore_context_args (&econ, num_arg);
       ret = 0;
       /* "Too long evaluation" renews eval_cost so that the error can be reported. The error
        * ends here, but when we were called from LPC code (sprintf("%O") in a loop) that
